@@ -160,9 +160,9 @@ pub const STORE_TABLE: &[(&str, Priv)] = &[
     ("initialize_referral_code", Open),
     ("set_referrer", Open),
     ("set_builder_fee_factor", Open),
-    ("transfer_referral_code", Open),
-    ("cancel_referral_code_transfer", Open),
-    ("accept_referral_code", Open),
+    ("transfer_referral_code", Bound),
+    ("cancel_referral_code_transfer", Bound),
+    ("accept_referral_code", Bound),
     ("initialize_glv", Role(RoleKey::MARKET_KEEPER)),
     ("update_glv_market_config", Role(RoleKey::MARKET_KEEPER)),
     ("toggle_glv_market_flag", Role(RoleKey::MARKET_KEEPER)),
@@ -515,6 +515,29 @@ fn replay(m: &mut Monitor, env: &Env, t: &Traced, per_name_budget: &mut Budget, 
                     m.count(&format!("denied_B_{label}"));
                     m.nontrivial(format!("B:{label}").as_bytes());
                 }
+            }
+        }
+        // Variant D (ownership-bound instructions): an *equipped* stranger — a signer with its own
+        // prepared user account in the store, substituted together with the user account derived from the
+        // signer. A bare stranger (variant B) is often rejected merely because its accounts do not exist.
+        if matches!(privilege, Bound | OwnerOrKeeper) {
+            let mut s = base.clone();
+            let eq = hostsvm::key("c19-equipped-stranger");
+            s.airdrop(&eq, 100 * LAMPORTS);
+            let prepared = s.process(&[crate::world::user::prepare_user_ix(env.store, eq)], &[eq]).is_ok();
+            if prepared {
+                let ix2 = substitute(&substitute(ix, &signer, &eq), &crate::world::user::user_address(&env.store, &signer), &crate::world::user::user_address(&env.store, &eq));
+                let signers: Vec<Pubkey> = t.signers.iter().map(|k| if *k == signer { eq } else { *k }).collect();
+                m.eval();
+                match s.process(&[ix2], &signers) {
+                    Ok(_) => m.violation(&sig("accepted_from_equipped_stranger"), wit("D: stranger with its own user account substituted for the signer and the signer's user account")),
+                    Err(_) => {
+                        m.count(&format!("denied_D_{label}"));
+                        m.nontrivial(format!("D:{label}").as_bytes());
+                    }
+                }
+            } else {
+                m.count("variant_D_skipped_prepare_user_failed");
             }
         }
         // Variant C: a key holding every other enabled role of the store incl. RESTART_ADMIN (and, for
@@ -1231,6 +1254,20 @@ fn extra_scenarios() -> (Env, Vec<Traced>) {
         let store_wallet = w.store_wallet();
         go(&mut w, six(sa::CloseVirtualInventory { authority: keeper, store, store_wallet, virtual_inventory: vi }, si::CloseVirtualInventory {}), &[keeper]);
     }
+    // referral codes: handed over only by their owner, accepted only by the designated next owner
+    {
+        let (ra, rb) = (hostsvm::key("c19-ref-a"), hostsvm::key("c19-ref-b"));
+        w.svm.airdrop(&ra, 10 * LAMPORTS);
+        w.svm.airdrop(&rb, 10 * LAMPORTS);
+        let code = *b"C19CODE1";
+        let _ = w.user_prepare(ra);
+        let _ = w.user_prepare(rb);
+        let _ = w.referral_init_code(ra, code);
+        let _ = w.referral_transfer_code(ra, code, rb);
+        let _ = w.referral_cancel_transfer(ra, code);
+        let _ = w.referral_transfer_code(ra, code, rb);
+        let _ = w.referral_accept_code(rb, code);
+    }
     // roles and authorities (admin)
     let pal = hostsvm::key("c19-pal");
     w.svm.airdrop(&pal, 10 * LAMPORTS);
@@ -1393,7 +1430,8 @@ pub fn run(args: &Args) -> Option<i32> {
         "authority-mutation replay: every successful transaction of the traced workloads (store bootstrap, exchange \
          workload, oracle / config / GT / GLV / order / ADL scenarios, treasury, timelock, liquidity-provider and competition \
          scenarios) is re-executed from its pre-state, per privileged instruction, with (A) the signer's required role \
-         revoked via the real revoke_role, (B) a stranger as signer, (C) a holder of all other roles as signer; all must be \
+         revoked via the real revoke_role, (B) a stranger as signer, (C) a holder of all other roles as signer, (D, ownership-bound \
+         instructions) a stranger equipped with its own user account, substituted together with the signer's user account; all must be \
          rejected. non-trivial = a denied variant; distinct = (variant, program, instruction)",
     );
     mon.assume("privilege tables written from the instruction documentation (c19.rs STORE_TABLE, TREASURY_TABLE, TIMELOCK_TABLE, LP_TABLE, COMPETITION_TABLE)");
